@@ -123,8 +123,9 @@ def include_facts(tree, rel):
                 and isinstance(n.args[0], ast.Constant) and isinstance(n.args[0].value, str):
             pops.append(n.args[0].value)
     inc = find_func(tree.body, "_include_file", rel)
-    uses = any(isinstance(n, ast.Call) and ast.unparse(n.func) == "_populate_self_namespace" and n.args
-               and ast.unparse(n.args[0]) == "context._clean_inheritance_tokens()" for n in ast.walk(inc))
+    # EVERY call of _populate_self_namespace in _include_file (and at least one) must be given the cleaned context
+    pcalls = [n for n in ast.walk(inc) if isinstance(n, ast.Call) and ast.unparse(n.func) == "_populate_self_namespace"]
+    uses = bool(pcalls) and all(n.args and ast.unparse(n.args[0]) == "context._clean_inheritance_tokens()" for n in pcalls)
     pop_fn = find_func(tree.body, "_populate_self_namespace", rel)
     sets = any(isinstance(n, ast.Assign) and sorted(ast.unparse(t) for t in n.targets) ==
                ["context._data['local']", "context._data['self']"] and ast.unparse(n.value) == "self_ns"
@@ -156,7 +157,8 @@ def gen(repo) -> str:
     pops, uses, sets = include_facts(tree, rel)
     out.append("/-- the keys `Context._clean_inheritance_tokens` removes from the copy it returns -/\n")
     out.append("def cleanPops : List (List Char) := [" + ", ".join(lstr(n) for n in pops) + "]\n\n")
-    out.append("/-- `_include_file` calls `_populate_self_namespace(context._clean_inheritance_tokens(), template)` -/\n")
+    out.append("/-- every call of `_populate_self_namespace` in `_include_file` (there is at least one) is\n"
+               "`_populate_self_namespace(context._clean_inheritance_tokens(), template)` -/\n")
     out.append("def includeUsesCleanContext : Bool := %s\n\n" % ("true" if uses else "false"))
     out.append("/-- `_populate_self_namespace` executes `context._data['self'] = context._data['local'] = self_ns` -/\n")
     out.append("def populateSetsSelfLocal : Bool := %s\n\n" % ("true" if sets else "false"))
